@@ -62,6 +62,11 @@ Inductive ti_source := TIOwn (* in_message._type_info *) | TIFlat (* in_message.
 (** what a protocol hands to the message serializer for a non-wrapped body style *)
 Inductive nw_mode := NWList (* ctx.out_object, the one-element list *) | NWFirst (* ctx.out_object[0] *).
 
+(** the key HierDictDocument.deserialize looks the request body up under *)
+Inductive lk_mode :=
+| LkTypeName     (* in_message.get_type_name() *)
+| LkSubName.     (* in_message.Attributes.sub_name when set (the message name of a bare method) *)
+
 (** event names fired through ctx.fire_event *)
 Inductive evname :=
 | MethodCall | MethodReturnObject | MethodExceptionObject | MethodContextClosed
